@@ -1583,7 +1583,7 @@ fn gen_e2e(r: &mut Rng) -> String {
         1 => a,
         _ => *r.pick(&[2u16, 0x0b0b, 0xfffe]),
     };
-    // handler table built by a history: `c` / `o` register a capture-all / own-address handler, a digit removes that id
+    // handler table built by a history: `c` / `o` register a capture-all / own-address handler, a digit k removes the k-th registration
     let hs: String = (0..r.below(7))
         .map(|_| match r.below(5) {
             0 => char::from(b'0' + r.below(4) as u8),
@@ -1642,14 +1642,22 @@ fn exec_e2e(t: &[&str]) -> Option<String> {
         ($iface:expr, $remaining:expr, $reset:expr) => {{
             let mut pb = Protocol::new(b, $iface);
             let mut token = 0usize;
+            // a digit k removes the k-th registration (with the id the protocol returned for it) if it exists and has not been
+            // removed yet: an application keeps the ids it is handed, whatever the allocation policy
+            let mut ids: Vec<Option<u32>> = vec![];
             for op in hs.iter() {
-                if let Some(id) = op.to_digit(10) {
-                    let _ = pb.remove_packet_handler(id);
+                if let Some(k) = op.to_digit(10) {
+                    if let Some(slot) = ids.get_mut(k as usize) {
+                        if let Some(id) = slot.take() {
+                            let _ = pb.remove_packet_handler(id);
+                        }
+                    }
                 } else {
                     let l = log.clone();
                     let tk = token;
                     token += 1;
-                    pb.add_packet_handler(Box::new(move |p: &Packet, _pr: &mut Protocol<_>| l.borrow_mut().push(format!("h{}/{}", tk, record(p)))), *op == 'c').ok()?;
+                    let id = pb.add_packet_handler(Box::new(move |p: &Packet, _pr: &mut Protocol<_>| l.borrow_mut().push(format!("h{}/{}", tk, record(p)))), *op == 'c').ok()?;
+                    ids.push(Some(id));
                 }
             }
             let mut ticks = 0usize;
